@@ -57,6 +57,11 @@ def fchebyshev(x, m):
         dt = x.dtype
     except AttributeError:
         dt = np.float64
+    if not np.issubdtype(dt, np.floating):
+        #
+        # Integer abscissae: the polynomials are not integer-valued.
+        #
+        dt = np.float64
     leg = np.ones((m, n), dtype=dt)
     if m >= 2:
         leg[1, :] = x
@@ -93,6 +98,11 @@ def fchebyshev_split(x, m):
     try:
         dt = x.dtype
     except AttributeError:
+        dt = np.float64
+    if not np.issubdtype(dt, np.floating):
+        #
+        # Integer abscissae: the polynomials are not integer-valued.
+        #
         dt = np.float64
     leg = np.ones((m, n), dtype=dt)
     try:
@@ -132,6 +142,11 @@ def fpoly(x, m):
     try:
         dt = x.dtype
     except AttributeError:
+        dt = np.float64
+    if not np.issubdtype(dt, np.floating):
+        #
+        # Integer abscissae: the polynomials are not integer-valued.
+        #
         dt = np.float64
     leg = np.ones((m, n), dtype=dt)
     if m >= 2:
@@ -181,6 +196,12 @@ def func_fit(x, y, ncoeff, invvar=None, function_name='legendre', ia=None,
     """
     if x.shape != y.shape:
         raise ValueError('Dimensions of X and Y do not agree!')
+    if not np.issubdtype(x.dtype, np.floating):
+        #
+        # Integer abscissae (pixel numbers): fit in double precision.
+        # This does not modify the caller's array.
+        #
+        x = x.astype(np.float64)
     if invvar is None:
         invvar = np.ones(x.shape, dtype=x.dtype)
     else:
@@ -241,7 +262,6 @@ def func_fit(x, y, ncoeff, invvar=None, function_name='legendre', ia=None,
         if nparams > 1:
             # beta = np.dot(ysub * (invvar > 0), finalarr.T)
             beta = np.dot(ysub * invvar, finalarr.T)
-            assert beta.dtype == x.dtype
             # uu,ww,vv = np.linalg.svd(alpha, full_matrices=False)
             res[nonfix] = np.linalg.solve(alpha, beta)
         else:
@@ -358,9 +378,17 @@ class TraceSet(object):
                 self.xjumpval = np.float64(kwargs['xjumpval'])
             else:
                 self.xjumpval = None
-            self.coeff = np.zeros((self.nTrace, self.ncoeff), dtype=xpos.dtype)
+            if np.issubdtype(xpos.dtype, np.floating):
+                fdtype = xpos.dtype
+            else:
+                #
+                # Integer positions (pixel numbers): coefficients and fitted
+                # values are not integers.
+                #
+                fdtype = np.float64
+            self.coeff = np.zeros((self.nTrace, self.ncoeff), dtype=fdtype)
             self.outmask = np.zeros(xpos.shape, dtype=bool)
-            self.yfit = np.zeros(xpos.shape, dtype=xpos.dtype)
+            self.yfit = np.zeros(xpos.shape, dtype=fdtype)
             for iTrace in range(self.nTrace):
                 xvec = self.xnorm(xpos[iTrace, :], do_jump)
                 iIter = 0
@@ -399,7 +427,10 @@ class TraceSet(object):
         do_jump = self.has_jump and (not ignore_jump)
         if xpos is None:
             xpos = djs_laxisgen([self.nTrace, self.nx], iaxis=1) + self.xmin
-        ypos = np.zeros(xpos.shape, dtype=xpos.dtype)
+        if np.issubdtype(xpos.dtype, np.floating):
+            ypos = np.zeros(xpos.shape, dtype=xpos.dtype)
+        else:
+            ypos = np.zeros(xpos.shape, dtype=np.float64)
         for iTrace in range(self.nTrace):
             xvec = self.xnorm(xpos[iTrace, :], do_jump)
             legarr = self._func_map[self.func](xvec, self.ncoeff)
